@@ -13,7 +13,7 @@ ASSUMPTIONS = [
     'a USBError is injected at every backend call index by enumeration; the ADB interface is the setting with class 0xFF / subclass 0x42 / protocol 0x01 among other settings',
 ]
 BOUNDS = {
-    'quick': 'connect/bulk_write/bulk_read/close scripts with symbolic timeouts and default timeout, read sizes 1..4 with short transfers, USBError at every call index, use after close, close twice; AdbDeviceUsb session (connect, shell, stat, pull, push) through find_adb with serial / port path / first device',
+    'quick': 'connect/bulk_write/bulk_read/close scripts with symbolic timeouts and default timeout, read sizes 1..4 with short transfers, USBError at every call index, device unplugged at every call index (every later libusb call, the serial-number lookup included, raises USBErrorNoDevice), use after close, close twice; AdbDeviceUsb session (connect, shell, stat, pull, push) through find_adb with serial / port path / first device',
     'thorough': 'same with 3 candidate devices and larger reads',
 }
 VARIANT = 'usb'
@@ -78,6 +78,9 @@ def h_unit(ctx, mods, shape):
     if shape.get('fault') is not None:
         u.STATE.fault_at = shape['fault']
         u.STATE.fault_exc = [u.USBErrorIO, u.USBErrorNoDevice, u.USBErrorTimeout][shape.get('fault_kind', 0)]
+    if shape.get('unplug') is not None:
+        u.STATE.unplug_at = shape['unplug']
+    faulty = lambda: u.STATE.fault_at is not None or u.STATE.unplugged
     want_ms = _ms(t) if t is not None else _ms(default if default is not None else 10)
     steps = shape['steps']
     closed = True
@@ -85,6 +88,7 @@ def h_unit(ctx, mods, shape):
     sent = SymBytes()
     for step in steps:
         ncalls = len(u.STATE.calls)
+        raised = True
         try:
             if step == 'connect':
                 tr.connect(t)
@@ -124,14 +128,15 @@ def h_unit(ctx, mods, shape):
                 tr.close()
                 closed = True
                 for h in adb.handles:
-                    ctx.check(h.closed or u.STATE.fault_at is not None, 'close() closes the libusb handle')
+                    ctx.check(h.closed or faulty(), 'close() closes the libusb handle')
+            raised = False
         except exc.UsbReadFailedError as e:
             ctx.observe(step, 'UsbReadFailedError')
-            ok = step.startswith('read') and (closed or closed is None or u.STATE.fault_at is not None or state['pos'] >= NIN)
+            ok = step.startswith('read') and (closed or closed is None or faulty() or state['pos'] >= NIN)
             ctx.check(ok, 'UsbReadFailedError only from a read that libusb failed or on a closed transport', detail=step)
         except exc.UsbWriteFailedError as e:
             ctx.observe(step, 'UsbWriteFailedError')
-            ctx.check(step == 'write' and (closed or closed is None or u.STATE.fault_at is not None), 'UsbWriteFailedError only from a write that libusb failed or on a closed transport', detail=step)
+            ctx.check(step == 'write' and (closed or closed is None or faulty()), 'UsbWriteFailedError only from a write that libusb failed or on a closed transport', detail=step)
         except u.USBError as e:
             if step in ('connect',):
                 # libusb refused while connecting (e.g. the interface could not be claimed): connect() raised; whether the
@@ -143,6 +148,10 @@ def h_unit(ctx, mods, shape):
         except Exception as e:
             ctx.fail('%s raised %s' % (step, type(e).__name__), detail=repr(e))
             return
+        if step == 'close' and u.STATE.unplugged:
+            closed = True
+        if u.STATE.unplugged and not raised and step != 'close' and step != 'connect' and len(u.STATE.calls) > ncalls:
+            ctx.fail('%s returned normally although every libusb call fails with USBErrorNoDevice (device unplugged)' % step)
         if step == 'close' and u.STATE.fault_at is not None and ncalls <= u.STATE.fault_at < len(u.STATE.calls):
             # libusb failed inside close(): the transport must still count as closed afterwards
             closed = True
@@ -236,6 +245,9 @@ def shapes(tier, seed):
     for f in range(0, 12):
         for kind in (0, 1):
             out.append({'h': 'unit', 'variant': 'usb', 'steps': ['connect', 'write', 'read2', 'close', 'write', 'read4', 'close', 'connect', 'write', 'close'], 't': 'sym', 'default': 'none', 'fault': f, 'fault_kind': kind})
+    # the cable is pulled at backend call index k: from then on every libusb call (the serial number lookup included) fails
+    for k in range(0, 10):
+        out.append({'h': 'unit', 'variant': 'usb', 'steps': ['connect', 'write', 'read2', 'write', 'read2', 'close', 'write', 'read2', 'close'], 't': 'sym', 'default': 'none', 'unplug': k})
     out.append({'h': 'unit', 'variant': 'usb', 'steps': ['connect', 'write', 'write', 'read2', 'close'], 't': 'sym', 'default': 'sym', 'short_out': True})
     out.append({'h': 'unit', 'variant': 'usb', 'steps': ['connect', 'read1500', 'read1025', 'read300', 'close'], 't': 'sym', 'default': 'sym', 'inbox': 4000})
     out.append({'h': 'session', 'variant': 'usb', 'by': None, 'ops': [['shell', {'lens': [1500, 3]}], 'stat'], 'eager': True})
